@@ -128,6 +128,10 @@ def build_dask(spec, pdf=None):
             kw["chunksize"] = lay["chunksize"]
         else:
             kw["npartitions"] = lay.get("npartitions", 1)
+        if lay.get("row_perm"):
+            # the user's frame is NOT sorted by its (unique) index; from_pandas(sort=True) sorts it, which gives ``pdf`` again
+            assert lay.get("sort", True) and pdf.index.is_unique and sorted(lay["row_perm"]) == list(range(len(pdf)))
+            return dx.from_pandas(pdf.iloc[lay["row_perm"]], sort=True, **kw)
         return dx.from_pandas(pdf, sort=lay.get("sort", True), **kw)
     cuts = lay["cuts"]
     assert sum(cuts) == len(pdf), (cuts, len(pdf))
@@ -255,7 +259,13 @@ def st_layout(spec):
     def _lay(draw):
         choice = draw(st.integers(0, 5))
         if choice <= 1 or n == 0:
-            return {"kind": "from_pandas", "npartitions": draw(st.integers(1, 4)), "sort": True}
+            lay = {"kind": "from_pandas", "npartitions": draw(st.integers(1, 4)), "sort": True}
+            idx = spec.get("index") or {}
+            unique = idx.get("kind", "range") == "range" or len(set(idx.get("values", []))) == n
+            if n > 1 and unique and draw(st.integers(0, 3)) == 0:
+                # hand from_pandas the rows in another order (it sorts them by the index)
+                lay["row_perm"] = draw(st.permutations(list(range(n))))
+            return lay
         # a cut vector, possibly with empty partitions
         k = draw(st.integers(1, min(5, n)))
         pts = sorted(draw(st.lists(st.integers(0, n), min_size=k - 1, max_size=k - 1)))
